@@ -15,6 +15,8 @@ import (
 
 	"github.com/postalsys/muti-metroo/internal/agent"
 	"github.com/postalsys/muti-metroo/internal/config"
+	"github.com/postalsys/muti-metroo/internal/identity"
+	"github.com/postalsys/muti-metroo/internal/protocol"
 	"github.com/postalsys/muti-metroo/internal/sleep"
 	"github.com/postalsys/muti-metroo/internal/verifhook"
 )
@@ -64,6 +66,7 @@ func c30Park(w *c30World, where string) {
 }
 
 func c30Reset(n int) string {
+	c30ProbeWaitHook()
 	if old := c30W; old != nil {
 		old.dead = true
 		for _, t := range old.th {
@@ -138,12 +141,44 @@ func c30Reset(n int) string {
 		},
 	})
 	verifhook.Point = func(name string) {
-		if name == "sleep.Poll.after-first-unlock" {
+		switch name {
+		case "sleep.Poll.after-first-unlock":
 			c30Park(w, "afterP1")
+		case "sleep.Poll.before-second-lock":
+			c30Park(w, "waiting")
 		}
 	}
 	c30W = w
 	return "ok"
+}
+
+// c30HasWaitHook: does this tree have the scheduling point between Poll's wait and its second critical
+// section (fixes/hook-sleep-poll-wait.patch)? Probed once on a throw-away manager. Without it `ret i`
+// cannot be forced separately (it has no effect on the manager) and the goroutine is let go at `end i`.
+var c30WaitHook, c30WaitHookProbed bool
+
+func c30ProbeWaitHook() bool {
+	if c30WaitHookProbed {
+		return c30WaitHook
+	}
+	c30WaitHookProbed = true
+	dir, err := os.MkdirTemp("", "verif-c30p-")
+	must(err)
+	defer os.RemoveAll(dir)
+	cfg := config.Default().Sleep
+	cfg.Enabled, cfg.PersistState, cfg.PollInterval, cfg.PollIntervalJitter, cfg.PollDuration = true, false, time.Hour, 0, 0
+	m := sleep.NewManager(cfg, dir, nil)
+	old := verifhook.Point
+	verifhook.Point = func(name string) {
+		if name == "sleep.Poll.before-second-lock" {
+			c30WaitHook = true
+		}
+	}
+	_ = m.Sleep()
+	_ = m.Poll()
+	m.Stop()
+	verifhook.Point = old
+	return c30WaitHook
 }
 
 func c30File(w *c30World) string {
@@ -186,6 +221,9 @@ func c30Err(err error) string {
 //
 //	reset-agent | asleep | awake | dpstart | dprelease   -> <res> st=<STATE>
 type c30AgentWorld struct {
+	long    bool // long poll duration: a started doPoll stays in its wait
+	waiting bool
+	cmdSeq  uint64
 	a       *agent.Agent
 	dir     string
 	parked  bool
@@ -196,13 +234,16 @@ type c30AgentWorld struct {
 
 var c30A *c30AgentWorld
 
-func c30AgentReset() string {
+func c30AgentReset(long bool) string {
 	if old := c30A; old != nil {
 		if old.parked {
 			close(old.gate)
 			<-old.done
 		}
 		old.a.VerifC30Close()
+		if old.waiting {
+			<-old.done
+		}
 		os.RemoveAll(old.dir)
 	}
 	dir, err := os.MkdirTemp("", "verif-c30a-")
@@ -214,7 +255,10 @@ func c30AgentReset() string {
 	cfg.Sleep.PollInterval = time.Hour
 	cfg.Sleep.PollIntervalJitter = 0
 	cfg.Sleep.PollDuration = 20 * time.Millisecond
-	w := &c30AgentWorld{dir: dir}
+	if long {
+		cfg.Sleep.PollDuration = time.Hour
+	}
+	w := &c30AgentWorld{dir: dir, long: long}
 	a, err := agent.VerifC30New(cfg, func() error { return nil }, func() error { return nil })
 	must(err)
 	w.a = a
@@ -242,9 +286,43 @@ func c30AgentRun(f []string) string {
 			return st("refused")
 		}
 		return st("ok")
+	case "wakecmd": // a WAKE_COMMAND frame through the agent's dispatcher (no signing key: accepted when new)
+		w.cmdSeq++
+		wc := &protocol.WakeCommand{OriginAgent: identity.AgentID{0xA0, 4, 4, 4, 4, 4, 4, 4, 4, 4, 4, 4, 4, 4, 4, 4}, CommandID: w.cmdSeq, Timestamp: uint64(time.Now().Unix())}
+		was := w.a.VerifC30SleepMgr().GetState()
+		w.a.VerifC30Process(identity.AgentID{0xA0, 1, 1, 1, 1, 1, 1, 1, 1, 1, 1, 1, 1, 1, 1, 1}, &protocol.Frame{Type: protocol.FrameWakeCommand, StreamID: protocol.ControlStreamID, Payload: wc.Encode()})
+		res := "ok"
+		if was == sleep.StateAwake {
+			res = "refused"
+		}
+		dp := "none"
+		if w.waiting {
+			select {
+			case <-w.done:
+				dp, w.waiting = "returned", false
+			case <-time.After(10 * time.Second):
+				dp = "still-waiting"
+			}
+		}
+		return st(res) + " dp=" + dp
 	case "dpstart":
-		if w.parked {
+		if w.parked || w.waiting {
 			return st("disabled")
+		}
+		if w.long {
+			w.arrived, w.gate, w.done = make(chan struct{}), make(chan struct{}), make(chan struct{})
+			go func(done chan struct{}) {
+				defer close(done)
+				_ = w.a.VerifC30DoPoll()
+			}(w.done)
+			for deadline := time.Now().Add(10 * time.Second); !w.a.VerifC30InPoll(); {
+				if time.Now().After(deadline) {
+					return st("stuck")
+				}
+				time.Sleep(time.Millisecond)
+			}
+			w.waiting = true
+			return st("waiting")
 		}
 		w.arrived, w.gate, w.done = make(chan struct{}), make(chan struct{}), make(chan struct{})
 		go func(done chan struct{}) {
@@ -333,8 +411,8 @@ func c30Run(line string) string {
 	f := fields(line)
 	switch f[0] {
 	case "reset-agent":
-		return c30AgentReset()
-	case "asleep", "awake", "dpstart", "dprelease":
+		return c30AgentReset(len(f) > 1 && f[1] == "wait")
+	case "asleep", "awake", "dpstart", "dprelease", "wakecmd":
 		return c30AgentRun(f)
 	}
 	if f[0] == "reset" {
@@ -397,6 +475,18 @@ func c30Run(line string) string {
 		if t.pc != 2 {
 			return c30Out(w, "disabled")
 		}
+		if c30WaitHook { // OnPoll returns; Poll waits PollDuration and is parked before its second critical section
+			w.active = i
+			t.gate <- struct{}{}
+			select {
+			case <-t.arrived:
+			case <-t.done:
+				t.pc = 0
+				return c30Out(w, "finished-at-ret")
+			case <-time.After(limit):
+				return c30Out(w, "stuck")
+			}
+		}
 		t.pc = 3
 		return c30Out(w, "ok")
 	case "end":
@@ -426,7 +516,7 @@ func c30Run(line string) string {
 // of the control state (only used to know which labels are enabled); (b) long random schedules with
 // three threads, including disabled labels and refused calls.
 func c30Gen(w *bufio.Writer, seed int64, tier string) {
-	depth, nrand := 9, 300
+	depth, nrand := 9, 200
 	if tier == "thorough" {
 		depth, nrand = 12, 5000
 	}
@@ -524,10 +614,28 @@ func c30Gen(w *bufio.Writer, seed int64, tier string) {
 	if tier == "thorough" {
 		na = 60
 	}
+	alpha2 := append(append([]string{}, alpha...), "wakecmd")
 	for c := 0; c < na; c++ {
 		fmt.Fprintln(w, "reset-agent")
 		for s := 0; s < 6+r.intn(8); s++ {
-			fmt.Fprintln(w, alpha[r.intn(4)])
+			fmt.Fprintln(w, alpha2[r.intn(5)])
+		}
+	}
+	// long poll duration: a started doPoll sits in its wait; a wake COMMAND ends it, a bare Wake() does not
+	for _, sc := range [][]string{
+		{"asleep", "dpstart", "wakecmd", "dpstart", "asleep", "dpstart", "awake", "wakecmd"},
+		{"asleep", "dpstart", "awake", "asleep", "wakecmd", "wakecmd", "dpstart"},
+		{"dpstart", "asleep", "dpstart", "wakecmd", "dprelease"},
+	} {
+		fmt.Fprintln(w, "reset-agent wait")
+		for _, o := range sc {
+			fmt.Fprintln(w, o)
+		}
+	}
+	for c := 0; c < na; c++ {
+		fmt.Fprintln(w, "reset-agent wait")
+		for s := 0; s < 5+r.intn(8); s++ {
+			fmt.Fprintln(w, alpha2[r.intn(5)])
 		}
 	}
 	for c := 0; c < nrand; c++ {
